@@ -102,6 +102,9 @@ func runAsync(out *TraceWriter, seed int64, run int, steps int) {
 	seedNonces(seed*7 + int64(run))
 	c := NewCluster(seed+int64(run), out)
 	c.Rng = rng
+	if run%5 == 3 {
+		c.Clk.Origin = FarOrigin // the injected clock lies far beyond the machine's date (traces stay relative to the origin)
+	}
 	a := &asyncRun{c: c, rng: rng, amnesia: -1, byz: []int{}, valTable: map[uint32][]int{}, seen: map[int]map[int]bool{}, byzProps: map[[2]int][]*Payload{}, pending: map[int]bool{}}
 	a.n0 = []int{4, 4, 4, 4, 4, 4, 4, 7, 5, 6, 3, 2, 1, 10}[rng.Intn(14)]
 	a.h0 = uint32(rng.Intn(7))
@@ -428,7 +431,7 @@ func (a *asyncRun) byzStep() {
 					txs = append(txs, H(fmt.Sprintf("t%d.%d", h, k)))
 				}
 			}
-			ts := d.VerifSnapshot().LastBlockTimestamp + uint64(1+rng.Intn(3))*n.Cfg.Inc
+			ts := rel(d.VerifSnapshot().LastBlockTimestamp, n.Clk.Origin) + uint64(1+rng.Intn(3))*n.Cfg.Inc
 			switch rng.Intn(6) { // nobody checks a proposal's timestamp but the application
 			case 0:
 				ts = uint64(c.Clk.Now) + uint64(1000+rng.Intn(5000))
